@@ -350,6 +350,13 @@ class _Marshaller:
     # FIXME: will probably have to adjust similar to how we
     # adjusted dump_code2
     def dump_code3(self, x):
+        if hasattr(x, "co_exceptiontable"):
+            # 3.11+ code objects have a different layout (localsplus, qualname,
+            # exception table); writing the 3.10 layout would give another program.
+            raise TypeError(
+                "marshalling Python 3.11+ code objects is not supported; "
+                "got a %s" % type(x).__name__
+            )
         self._write(TYPE_CODE)
         self.w_long(x.co_argcount)
         if hasattr(x, "co_posonlyargcount"):
